@@ -193,7 +193,10 @@ func c53(c *Ctx) {
 			addr := "ParseAddr(" + e + ")"
 			star := `HasPrefix(` + e + `,"*.")`
 			next := Calls("strings.TrimSpace")
-			c.Guard(afs, Calls("strings.Contains").ArgIs(0, e).ArgIs(1, `"/"`), "len("+e+") != 0")
+			// empty entries are skipped before classification (`len(e) != 0` and `e != ""` are the same fact)
+			c.M5AnySpelling(M5NonEmpty(e), func(ne string) {
+				c.Guard(afs, Calls("strings.Contains").ArgIs(0, e).ArgIs(1, `"/"`), ne)
+			})
 			c.Guard(afs, Calls(T+"AddNetwork").ArgIs(1, cidr+"#1"), slash, cidr+"#2 == nil")
 			c.NeverAfterUntil(afs, m1BoolBranch("strings.Contains", 0, true), Union(Calls(T+"AddIP"), Calls(T+"AddZone"), Calls(T+"AddHost")), next)
 			c.NeverAfterUntil(afs, m1ErrBranchOf("net.ParseCIDR"), Calls(T+"AddNetwork"), next)
